@@ -1376,6 +1376,10 @@ class XMLSchemaBase(XsdValidator, ElementPathMixin[Union[SchemaType, XsdElement]
                     yield context.missing_element_error(validation, self, elem, path, schema_path)
                     return
 
+            if context.level:
+                # Set the xmlns context for a selected/lazy element (not done by a parent group)
+                context.converter.set_xmlns_context(elem, context.level)
+
             try:
                 xsd_element.raw_decode(elem, validation, context)
             except XMLSchemaStopValidation:
